@@ -2,7 +2,7 @@
 C08 / C09 — executable model of the connection-registration state machine of `irclib.Irc`
 (src/irclib.py: IrcStateFsm, IrcState.reset, Irc.feedMsg dispatch, reset/_setNonResettingVariables/
 resetSasl/_queueConnectMessages, capUpkeep, endCapabilityNegociation, tryNextSaslMechanism,
-_maybeStartSasl, doAuthenticate (+ecdsa), do903..do908, doCapAck/Nak/Ls/New/Del, _addCapabilities,
+_maybeStartSasl, doAuthenticate (+ecdsa, +scram with the library calls as parameters), do903..do908, doCapAck/Nak/Ls/New/Del, _addCapabilities,
 _onCapSts, _requestCaps, _getNextNick, do43x, do375/376/377/422, doPing, doError, doNick),
 of `ircutils.AuthenticateDecoder / authenticate_generator / parseStsPolicy`
 and of the parts of `drivers.ServersMixin` / `drivers.Socket.SocketDriver` that decide when the Irc
@@ -26,6 +26,7 @@ def sPlain : Str := ['p','l','a','i','n']
 def sExternal : Str := ['e','x','t','e','r','n','a','l']
 def sEcdsa : Str := ['e','c','d','s','a','-','n','i','s','t','2','5','6','p','-','c','h','a','l','l','e','n','g','e']
 def sScramPfx : Str := ['s','c','r','a','m','-']
+def sDashPlus : Str := ['-','p','l','u','s']
 def sPort : Str := ['p','o','r','t']
 def sDuration : Str := ['d','u','r','a','t','i','o','n']
 def sPlus : Str := ['+']
@@ -214,6 +215,13 @@ structure Cfg where
   required : Bool          -- supybot.networks.<net>.sasl.required
   joins : Bool             -- the network has channels to join (Owner.do376)
   hasCrypto : Bool         -- `cryptography` importable
+  hasScram : Bool := false -- `pyxmpp2_scram` importable
+  -- the SCRAM library as parameters: supported hash names, the client-first message, the client-final
+  -- message (`none` = `challenge()` raises ScramException), the outcome of `finish()`
+  scramHashes : List Str := []
+  scramFirst : List Nat := []
+  scramFinal : Option (List Nat) := none
+  scramFinish : Nat := 0   -- 0 = accepted, 1 = BadSuccessException, other = another ScramException
   realDriver : Bool        -- SocketDriver semantics (reconnect resets the Irc) vs recording stub
   ssl : Bool               -- supybot.networks.<net>.ssl (driver.ssl)
   certValidation : Bool    -- driver.anyCertValidationEnabled()
@@ -247,12 +255,14 @@ structure St where
   saslNext : List Str := []
   saslCur : Option Str := none
   saslAuth : Bool := false
+  saslSent : Bool := false   -- sasl_response_sent: a complete response went out for the current mechanism
+  scramStep : Nat := 0       -- sasl_scram_state['step']: 0 uninitialized, 1 first-sent, 2 final-sent, 3 authenticated
   dec : Option Decoder := none
   nick : Str := []
   altNicks : List Str := []
   tried : List Str := []
   afterConnect : Bool := false
-  -- class-level Irc.REQUEST_CAPABILITIES (mutated by resetSasl, survives resets)
+  -- self.REQUEST_CAPABILITIES (rebuilt from the class-level set by every resetSasl)
   wanted : List Str := Gen.Conn.requestCapabilities
   -- Irc.fastqueue / Irc.queue (messages not yet taken by the driver)
   fastq : List Out := []
@@ -267,6 +277,7 @@ structure St where
   epoch : Nat := 0          -- number of Irc.reset() calls so far
   endCount : Nat := 0       -- CAP END sent in this epoch
   saslAcked : Bool := false -- a CAP ACK left `sasl` acknowledged at some point of this epoch
+  joinBad : Bool := false   -- real driver: a JOIN of Owner.do376 was written to a socket while `afterConnect` was not set
 deriving Repr
 
 /-- result of a handler: the state reached and the exception raised, if any -/
@@ -314,15 +325,15 @@ def onShutdown : St → R := transition Gen.Conn.toShutdown none
 def mechAvailable (cfg : Cfg) (m : Str) : Bool :=
   if m = sEcdsa then cfg.hasCrypto && !cfg.saslUser.isEmpty && !cfg.ecdsaKey.isEmpty
   else if m = sExternal then cfg.certfile
-  else if sScramPfx.isPrefixOf m then false          -- pyxmpp2_scram is not installed
+  else if sScramPfx.isPrefixOf m then cfg.hasScram && !cfg.saslUser.isEmpty && !cfg.saslPass.isEmpty
   else if m = sPlain then !cfg.saslUser.isEmpty && !cfg.saslPass.isEmpty
   else false
 
 /-- Irc.resetSasl -/
 def resetSasl (cfg : Cfg) (s : St) : St :=
   let next := cfg.mechanisms.filter (mechAvailable cfg)
-  { s with saslAuth := false, dec := none, saslNext := next, saslCur := none,
-           wanted := if next.isEmpty then s.wanted else (if s.wanted.contains sSasl then s.wanted else s.wanted ++ [sSasl]) }
+  { s with saslAuth := false, saslSent := false, scramStep := 0, dec := none, saslNext := next, saslCur := none,
+           wanted := if next.isEmpty then Gen.Conn.requestCapabilities else Gen.Conn.requestCapabilities ++ [sSasl] }
 
 /-- the messages Irc._queueConnectMessages / sendAuthenticationMessages put on the fast queue -/
 def connectMsgs (cfg : Cfg) (nick : Str) : List Out :=
@@ -459,13 +470,14 @@ def endCap (cfg : Cfg) (s : St) : R :=
 
 /-- Irc.sendSaslString -/
 def sendSaslString (bytes : List Nat) (s : St) : St :=
-  (authChunks Gen.Conn.authenticateChunkSize (b64encode bytes)).foldl (fun s c => sendMsg (.authPayload c) s) s
+  { (authChunks Gen.Conn.authenticateChunkSize (b64encode bytes)).foldl (fun s c => sendMsg (.authPayload c) s) s with
+    saslSent := true }
 
 /-- Irc.tryNextSaslMechanism -/
 def tryNextSasl (cfg : Cfg) (s : St) : R :=
   (expectState Gen.Conn.expectTryNextSasl s).bind fun s =>
   match s.saslNext with
-  | m :: rest => ok (sendMsg (.authMech (asciiUpper m)) { s with saslCur := some m, saslNext := rest })
+  | m :: rest => ok (sendMsg (.authMech (asciiUpper m)) { s with saslCur := some m, saslNext := rest, saslSent := false, scramStep := 0 })
   | [] =>
     if cfg.required then ok (drvReconnect cfg true none s)     -- "aborting connection"
     else
@@ -503,6 +515,26 @@ def decoderFeed (d : Decoder) (chunk : Str) : Decoder :=
   { chunks := if chunk = sPlus then d.chunks else d.chunks ++ [chunk],
     ready := d.ready || chunk = sPlus || chunk.length ≠ Gen.Conn.authenticateChunkSize }
 
+/-- the hash name Irc._doAuthenticateScramFirst derives from the mechanism name -/
+def scramHash (m : Str) : Str :=
+  let h := m.drop sScramPfx.length
+  asciiUpper (if sDashPlus.isSuffixOf h then h.take (h.length - sDashPlus.length) else h)
+
+/-- the SCRAM step machine of Irc.doAuthenticate (library calls are parameters of `cfg`); every failure
+sends `AUTHENTICATE *` and leaves the next mechanism to the handler of 906 -/
+def scramRespond (cfg : Cfg) (m : Str) (s : St) : R :=
+  if s.scramStep = 0 then
+    if cfg.scramHashes.contains (scramHash m) then ok { sendSaslString cfg.scramFirst s with scramStep := 1 }
+    else ok (sendMsg .authAbort s)
+  else if s.scramStep = 1 then
+    match cfg.scramFinal with
+    | some b => ok { sendSaslString b s with scramStep := 2 }
+    | none => ok (sendMsg .authAbort s)
+  else if s.scramStep = 2 then
+    if cfg.scramFinish = 0 then ok { sendSaslString [] s with scramStep := 3 }
+    else ok (sendMsg .authAbort s)
+  else raise "AssertionError" s
+
 /-- the mechanism-specific tail of Irc.doAuthenticate; `n` = length of the decoded server string -/
 def authRespond (cfg : Cfg) (n : Nat) (s : St) : R :=
   match s.saslCur with
@@ -510,10 +542,10 @@ def authRespond (cfg : Cfg) (n : Nat) (s : St) : R :=
   | some m =>
     if m = sEcdsa then
       if n = 0 then ok (sendSaslString (utf8 cfg.saslUser) s)
-      else if cfg.ecdsaKeyOk && n = 32 then ok (sendMsg .authOpaque s)
-      else raise "TypeError" (sendMsg .authAbort s)          -- tryNextSaslMechanism() without `msg`
+      else if cfg.ecdsaKeyOk && n = 32 then ok { sendMsg .authOpaque s with saslSent := true }
+      else ok (sendMsg .authAbort s)
     else if m = sExternal then ok (sendSaslString [] s)
-    else if sScramPfx.isPrefixOf m then raise "AttributeError" s  -- unreachable: never made available
+    else if sScramPfx.isPrefixOf m then scramRespond cfg m s
     else if m = sPlain then
       ok (sendSaslString (utf8 cfg.saslUser ++ [0] ++ utf8 cfg.saslUser ++ [0] ++ utf8 cfg.saslPass) s)
     else ok s
@@ -533,9 +565,10 @@ def doAuthenticate (cfg : Cfg) (cmd : Str) (args : List Str) (s : St) : R :=
     | none => raise "Error" { s with dec := some (decoderFeed (curDecoder s) chunk) }   -- binascii.Error, decoder kept
     | some n => authRespond cfg n { s with dec := none }
 
-/-- Irc.do903: honoured only as the end of a SASL exchange -/
+/-- Irc.do903: honoured only as the end of a SASL exchange, after a complete response of ours -/
 def do903 (cfg : Cfg) (s : St) : R :=
   (expectState Gen.Conn.expectDo903 s).bind fun s =>
+  if !s.saslSent then ok s else
   (onSaslAuthFinished { s with saslAuth := true }).bind fun s =>
   if s.fsm = .INIT_CAP_NEGOTIATION then endCap cfg s else ok s
 
@@ -618,12 +651,18 @@ def doCapAckNak (cfg : Cfg) (isAck : Bool) (args : List Str) (s : St) : R :=
 
 def capName (c : Str) : Str := (splitChar '=' c).headD []
 
+/-- one iteration of the loop of Irc.doCapDel: an acknowledged capability that is taken away counts as
+refused from now on -/
+def delCap (s : St) (c : Str) : St :=
+  { s with ls := dictDel s.ls (capName c), ack := s.ack.filter (· != capName c),
+           nak := if s.ack.contains (capName c) then union s.nak [capName c] else s.nak }
+
 def doCapDel (args : List Str) (s : St) : R :=
   match args with
   | [_, _, caps] =>
     let l := splitWs caps
     if l.isEmpty then raise "AssertionError" s else
-    ok (l.foldl (fun s c => { s with ls := dictDel s.ls (capName c), ack := s.ack.filter (· != capName c) }) s)
+    ok (l.foldl delCap s)
   | _ => ok s
 
 /-- Irc.doCapNew after `_addCapabilities` -/
@@ -816,7 +855,8 @@ def start (cfg : Cfg) (base : St) : StepResult := observeStep (ok (initSt cfg ba
 /-- SocketDriver._sendIfMsgs: everything the Irc object hands out goes to the current socket -/
 def flush (s : St) : St :=
   if s.drv.connected then
-    { s with wire := s.wire ++ (s.fastq ++ s.slowq).map (fun o => (s.drv.sock, o)), fastq := [], slowq := [] }
+    { s with wire := s.wire ++ (s.fastq ++ s.slowq).map (fun o => (s.drv.sock, o)), fastq := [], slowq := [],
+             joinBad := s.joinBad || ((s.fastq ++ s.slowq).contains .join && !s.afterConnect) }
   else s
 
 /-- the loop of SocketDriver._read over the complete lines of one recv(): the lines are fed to the Irc
